@@ -377,6 +377,9 @@ def references_returned(P, R, rule='C07.WIRE.1'):
 
 def run(P, R, tier):
     references_returned(P, R)
+    # whether a dropped service's slot is still there depends on other clients' pending queries: it answers nobody
+    from . import c17 as _c17
+    _c17.retired_namesake_skipped(P, R, 'C07.GRD.4')
     storage_audit(P, R)
     slot_stability(P, R)
     index_consistency(P, R)
